@@ -102,6 +102,17 @@ pub fn replay(path: &str, out: &str) -> Value {
             let ret = match &r { Ok(n) => json!(["ok", n]), Err(e) => json!([kind_of(e), 0]) };
             writeln!(w, "{}", json!({"fg":fg,"bg":bg,"data":data,"inner":[[v, "ok", v.len()]],"ret":ret,"impl":"Vec","whole":true})).unwrap();
             events += 1;
+            // a SECOND coloured write into the same Vec, with one colour or none: the writer only appends - what the first call
+            // left (its reset included) stays, and the new frame is complete in itself
+            {
+                let first = v.clone();
+                let (pfg, pbg) = [(2u64, 16u64), (16u64, 3u64), (16u64, 16u64), (5u64, 6u64)][(scripts % 4) as usize];
+                let r = v.write_colored(col(pfg), col(pbg), b"cd");
+                let ret = match &r { Ok(n) => json!(["ok", n]), Err(e) => json!([kind_of(e), 0]) };
+                let added: Vec<u8> = if v.starts_with(&first) { v[first.len()..].to_vec() } else { v.clone() };
+                writeln!(w, "{}", json!({"fg":pfg,"bg":pbg,"data":[99, 100],"inner":[[added, "ok", added.len()]],"ret":ret,"impl":"Vec (second frame in the same Vec)","whole":true})).unwrap();
+                events += 1;
+            }
             if scripts % 7 == 0 {
                 let mut f = std::fs::File::create(&tmp).unwrap();
                 let r = f.write_colored(col(fg), col(bg), &data);
@@ -128,7 +139,62 @@ pub fn replay(path: &str, out: &str) -> Value {
         writeln!(w, "{}", json!({"fg":fg,"bg":bg,"data":data,"inner":inner,"ret":ret,"impl":"dyn (64 KiB + data)","whole":false})).unwrap();
         events += 1;
     }
+    events += concurrent_frames(&mut w);
     let _ = std::fs::remove_file(&tmp);
     w.flush().unwrap();
     json!({"summary":{"scripts":scripts,"events":events}})
+}
+
+/// One thread is INSIDE a frame (its writer blocks in the data write) while another thread makes a coloured write to a writer
+/// of its own: that call must neither wait for the first (a watchdog turns waiting into the answer "hang") nor lose its frame.
+fn concurrent_frames(w: &mut dyn Write) -> u64 {
+    use std::sync::mpsc::{channel, Receiver, Sender};
+    use std::time::Duration;
+    struct Blocking {
+        inside: Sender<()>,
+        release: Receiver<()>,
+        buf: Vec<u8>,
+    }
+    impl Write for Blocking {
+        fn write(&mut self, b: &[u8]) -> io::Result<usize> {
+            if b == b"held" {
+                let _ = self.inside.send(());
+                let _ = self.release.recv_timeout(Duration::from_secs(8));
+            }
+            self.buf.extend_from_slice(b);
+            Ok(b.len())
+        }
+        fn flush(&mut self) -> io::Result<()> {
+            Ok(())
+        }
+    }
+    let (inside_tx, inside_rx) = channel();
+    let (release_tx, release_rx) = channel();
+    let a = std::thread::spawn(move || {
+        let mut b: Box<dyn Write> = Box::new(Blocking { inside: inside_tx, release: release_rx, buf: Vec::new() });
+        let r = b.write_colored(col(1), col(16), b"held");
+        match r { Ok(n) => json!(["ok", n]), Err(e) => json!([kind_of(&e), 0]) }
+    });
+    let mut events = 0;
+    if inside_rx.recv_timeout(Duration::from_secs(8)).is_ok() {
+        let (done_tx, done_rx) = channel();
+        let b = std::thread::spawn(move || {
+            let mut v: Vec<u8> = Vec::new();
+            let r = v.write_colored(col(2), col(4), b"free");
+            let ret = match &r { Ok(n) => json!(["ok", n]), Err(e) => json!([kind_of(e), 0]) };
+            let _ = done_tx.send((v, ret));
+        });
+        let ev = match done_rx.recv_timeout(Duration::from_secs(4)) {
+            Ok((v, ret)) => json!({"fg":2,"bg":4,"data":[102, 114, 101, 101],"inner":[[v, "ok", v.len()]],"ret":ret,"impl":"Vec (another thread is inside a frame)","whole":true}),
+            Err(_) => json!({"fg":2,"bg":4,"data":[102, 114, 101, 101],"inner":[],"ret":["hang", 0],"impl":"Vec (another thread is inside a frame)","whole":true}),
+        };
+        writeln!(w, "{ev}").unwrap();
+        events += 1;
+        let _ = release_tx.send(());
+        let _ = b.join();
+    } else {
+        let _ = release_tx.send(());
+    }
+    let _ = a.join();
+    events
 }
